@@ -8,6 +8,7 @@ pub fn datum_sval(d: &Datum) -> SVal {
     match d {
         Datum::Int(i) => SVal::int(*i),
         Datum::Ratio(a, b) => SVal::Num(crate::sut::SNum::Rat(*a, *b)),
+        Datum::Real(x) => SVal::Num(crate::sut::SNum::Real(x.parse::<f32>().unwrap_or(f32::NAN).to_bits())),
         Datum::Bool(b) => SVal::Bool(*b),
         Datum::Sym(s) => SVal::Sym(s.clone()),
         Datum::Str(s) => SVal::Str(s.clone()),
@@ -217,6 +218,8 @@ pub fn exposing_template(idx: usize, p: &Pat) -> Tmpl {
         items.push((Tmpl::List(vec![(Tmpl::Var(v.clone()), true)]), false));
     }
     // identifiers that are pattern variables of other rules but not of this one must stay plain symbols
+    // `_` in a template is an ordinary symbol, whatever `_` matched in the pattern
+    items.push((Tmpl::Sym("_".into()), false));
     for i in 0..3 {
         let name = format!("p{}", i);
         if !plain_names.contains(&name) && !seq.contains(&name) {
@@ -234,6 +237,11 @@ pub fn small_uses() -> Vec<Datum> {
         Datum::Int(6),
         Datum::List(vec![Datum::Int(1)], None),
         Datum::Vector(vec![Datum::Int(1)]),
+        // an improper sub-form: a proper-list sub-pattern must not match it
+        Datum::List(vec![Datum::Int(1)], Some(Box::new(Datum::Int(2)))),
+        // data that are *written* like the literal identifier k, but are not identifiers
+        Datum::Str("k".into()),
+        Datum::Char('k'),
     ];
     let mut out = vec![Datum::List(vec![], None)];
     for len in 1..=3usize {
@@ -243,6 +251,10 @@ pub fn small_uses() -> Vec<Datum> {
             for _ in 0..len {
                 items.push(opts[x % opts.len()].clone());
                 x /= opts.len();
+            }
+            // the use itself written with a dotted tail: (m a b . 7)
+            if len <= 2 {
+                out.push(Datum::List(items.clone(), Some(Box::new(Datum::Int(7)))));
             }
             out.push(Datum::List(items, None));
         }
@@ -307,9 +319,12 @@ fn random_datum(ch: &mut Chooser, depth: u32) -> Datum {
         return atom_datum(ch);
     }
     let n = ch.below(4);
-    let items = (0..n).map(|_| random_datum(ch, depth - 1)).collect();
+    let items: Vec<Datum> = (0..n).map(|_| random_datum(ch, depth - 1)).collect();
     if ch.chance(1, 4) {
         Datum::Vector(items)
+    } else if n >= 1 && ch.chance(1, 8) {
+        let tail = atom_datum(ch);
+        Datum::List(items, Some(Box::new(tail)))
     } else {
         Datum::List(items, None)
     }
@@ -378,7 +393,7 @@ fn gen_template(ch: &mut Chooser, plain: &[String], groups: &[Vec<String>], dept
             0 if !plain.is_empty() => items.push((Tmpl::Var(plain[ch.below(plain.len())].clone()), false)),
             1 => {
                 // a plain identifier, sometimes one that is a pattern variable in another rule of the same set
-                let name = ch.pick_s(&["list", "quote-me", "t1", "if", "v1", "v2", "v3", "v4"]).to_string();
+                let name = ch.pick_s(&["list", "quote-me", "t1", "if", "v1", "v2", "v3", "v4", "_", "_"]).to_string();
                 if plain.contains(&name) || groups.iter().any(|g| g.contains(&name)) {
                     items.push((Tmpl::Sym("t1".into()), false));
                 } else {
@@ -389,7 +404,18 @@ fn gen_template(ch: &mut Chooser, plain: &[String], groups: &[Vec<String>], dept
             3 if !groups.is_empty() => {
                 // an ellipsis sub-template over the variables of one pattern ellipsis
                 let g = &groups[ch.below(groups.len())];
-                let sub = if g.len() == 1 || ch.chance(1, 2) {
+                let sub = if ch.chance(1, 4) {
+                    // the ellipsis variables sit one level below the top of the sub-template, next to constants
+                    let k = 1 + ch.below(g.len().min(2));
+                    let inner: Vec<(Tmpl, bool)> = (0..k).map(|_| (Tmpl::Var(g[ch.below(g.len())].clone()), false)).collect();
+                    let inner = if ch.chance(1, 4) { Tmpl::Vector(inner) } else { Tmpl::List(inner) };
+                    match ch.below(4) {
+                        0 => Tmpl::List(vec![(Tmpl::Sym("entry".into()), false), (inner, false)]),
+                        1 => Tmpl::Vector(vec![(inner, false)]),
+                        2 => Tmpl::List(vec![(Tmpl::Datum(Datum::Int(1)), false), (inner, false), (Tmpl::Datum(Datum::Str("s".into())), false)]),
+                        _ => Tmpl::List(vec![(inner, false)]),
+                    }
+                } else if g.len() == 1 || ch.chance(1, 2) {
                     Tmpl::Var(g[ch.below(g.len())].clone())
                 } else {
                     let k = 1 + ch.below(g.len());
@@ -439,7 +465,11 @@ fn mutate(ch: &mut Chooser, d: &Datum, literals: &[String]) -> Datum {
         Datum::List(items, None) | Datum::Vector(items) => {
             let mut v = items.clone();
             let is_list = matches!(d, Datum::List(..));
-            match ch.below(6) {
+            match ch.below(7) {
+                6 if is_list && !v.is_empty() => {
+                    // the same elements with a dotted tail
+                    return Datum::List(v, Some(Box::new(Datum::Int(7))));
+                }
                 0 if !v.is_empty() => {
                     let i = ch.below(v.len());
                     v.remove(i);
@@ -472,7 +502,11 @@ fn mutate(ch: &mut Chooser, d: &Datum, literals: &[String]) -> Datum {
                 Datum::Vector(v)
             }
         }
-        Datum::Sym(s) if literals.contains(s) => Datum::Sym("not-the-literal".into()),
+        Datum::Sym(s) if literals.contains(s) => match ch.below(3) {
+            0 => Datum::Str(s.clone()),
+            1 if s.chars().count() == 1 => Datum::Char(s.chars().next().unwrap()),
+            _ => Datum::Sym("not-the-literal".into()),
+        },
         Datum::Int(i) => Datum::Int(i + 1),
         _ => atom_datum(ch),
     }
@@ -531,9 +565,10 @@ pub fn run(ctx: &Ctx) {
          instantiated template as data or a no-match syntax error. (a) exhaustive: every rule set of one rule (sampled: two \
          rules) whose argument pattern is a list of <= 3 elements over {variable, literal identifier, _, datum, nested list, \
          nested vector}, the last optionally under an ellipsis, with a template exposing every binding, against every use \
-         of <= 3 elements over {the literal, another symbol, two data, a nested list, a nested vector}; (b) random rule sets \
-         (<= 5 rules, nesting <= 3, vectors, literals, ellipsis over list sub-patterns) with uses instantiated from their \
-         own patterns and mutated. Oracle: reference matcher/instantiator; one fresh interpreter thread per rule set. \
+         of <= 3 elements over {the literal, another symbol, two data, a nested list, a nested vector, a dotted pair}, the \
+         shorter uses also with a dotted tail; (b) random rule sets (<= 5 rules, nesting <= 3, vectors, literals, ellipsis \
+         over list sub-patterns, ellipsis sub-templates with constants around nested ellipsis variables) with uses \
+         instantiated from their own patterns and mutated (incl. improper lists). Oracle: reference matcher/instantiator; one fresh interpreter thread per rule set. \
          Non-trivial = a later rule is chosen, an ellipsis matches >= 2 items, nesting >= 2, or literals are present.",
     );
     let pats = small_patterns();
@@ -554,6 +589,6 @@ pub fn run(ctx: &Ctx) {
         };
         Some(judge_rule_set(&rs, &uses))
     });
-    let cases = ctx.tier.pick(3_000, 100_000);
+    let cases = ctx.tier.pick(10_000, 100_000);
     ctx.random("random-rule-sets", cases, 400, random_case);
 }
